@@ -83,6 +83,11 @@ trait Coll {
     fn iter_mut_ids(&mut self) -> Option<Vec<Self::Id>> {
         None
     }
+    /// does mutable access by `id` resolve (Some(true)) or report absence by a
+    /// panic / none (Some(false))? None = the collection has no such access
+    fn get_mut_resolves(&mut self, _id: Self::Id) -> Option<bool> {
+        None
+    }
     /// indirect addition of pool value `v`; returns the id the item can be
     /// found under afterwards (None = unsupported)
     fn aux_add(&mut self, _v: &Self::Val) -> Option<Self::Id> {
@@ -237,6 +242,19 @@ fn run_seq<C: Coll>(ops: &[Op]) -> Result<bool, Failure> {
             if val.is_none() && !probe_dead && just_deleted != Some(pos) {
                 continue;
             }
+            if val.is_none() {
+                if let Some(true) = c.get_mut_resolves(*id) {
+                    return Err(fail(
+                        "dead-id-resolves-through-get_mut",
+                        format!("step {}: get_mut({:?}) of a deleted item resolves instead of reporting absence", step, id),
+                    ));
+                }
+            } else if let Some(false) = c.get_mut_resolves(*id) {
+                return Err(fail(
+                    "live-id-lost-or-changed",
+                    format!("step {}: get_mut({:?}) of a live item reports absence", step, id),
+                ));
+            }
             let got = c.get(*id);
             if got != *val {
                 let what = if val.is_none() { "dead-id-resolves" } else { "live-id-lost-or-changed" };
@@ -285,6 +303,12 @@ fn run_seq<C: Coll>(ops: &[Op]) -> Result<bool, Failure> {
 
 struct Types(Module);
 impl Coll for Types {
+    fn get_mut_resolves(&mut self, id: TypeId) -> Option<bool> {
+        Some(quiet(|| {
+            let _ = self.0.types.get_mut(id);
+        })
+        .is_some())
+    }
     const NAME: &'static str = "types";
     type Id = TypeId;
     type Val = (Vec<ValType>, Vec<ValType>);
@@ -373,6 +397,15 @@ enum ItemKey {
     T,
 }
 impl Coll for Exports {
+    fn touch(&mut self, id: ExportId) {
+        let _ = self.m.exports.get_mut(id).id();
+    }
+    fn get_mut_resolves(&mut self, id: ExportId) -> Option<bool> {
+        Some(quiet(|| {
+            let _ = self.m.exports.get_mut(id);
+        })
+        .is_some())
+    }
     const NAME: &'static str = "exports";
     type Id = ExportId;
     type Val = (String, ItemKey);
@@ -400,6 +433,8 @@ impl Coll for Exports {
             ("c".into(), ItemKey::G),
             ("a".into(), ItemKey::F(0)),
             ("d".into(), ItemKey::T),
+            // a second name for a function that "a" may already export
+            ("e".into(), ItemKey::F(0)),
         ]
     }
     fn add(&mut self, v: &Self::Val) -> Result<ExportId, ()> {
@@ -493,6 +528,15 @@ struct Imports {
     g: GlobalId,
 }
 impl Coll for Imports {
+    fn touch(&mut self, id: ImportId) {
+        let _ = self.m.imports.get_mut(id).id();
+    }
+    fn get_mut_resolves(&mut self, id: ImportId) -> Option<bool> {
+        Some(quiet(|| {
+            let _ = self.m.imports.get_mut(id);
+        })
+        .is_some())
+    }
     const NAME: &'static str = "imports";
     type Id = ImportId;
     type Val = (String, String, ItemKey);
@@ -598,6 +642,15 @@ impl Imports {
 
 struct Globals(Module);
 impl Coll for Globals {
+    fn touch(&mut self, id: GlobalId) {
+        self.0.globals.get_mut(id).name = Some(format!("named{}", id.index()));
+    }
+    fn get_mut_resolves(&mut self, id: GlobalId) -> Option<bool> {
+        Some(quiet(|| {
+            let _ = self.0.globals.get_mut(id);
+        })
+        .is_some())
+    }
     const NAME: &'static str = "globals";
     type Id = GlobalId;
     type Val = (bool, i32);
@@ -653,6 +706,15 @@ impl Coll for Globals {
 
 struct Memories(Module);
 impl Coll for Memories {
+    fn touch(&mut self, id: MemoryId) {
+        self.0.memories.get_mut(id).name = Some(format!("named{}", id.index()));
+    }
+    fn get_mut_resolves(&mut self, id: MemoryId) -> Option<bool> {
+        Some(quiet(|| {
+            let _ = self.0.memories.get_mut(id);
+        })
+        .is_some())
+    }
     const NAME: &'static str = "memories";
     type Id = MemoryId;
     type Val = (bool, u64);
@@ -690,6 +752,15 @@ impl Coll for Memories {
 
 struct Tables(Module);
 impl Coll for Tables {
+    fn touch(&mut self, id: TableId) {
+        self.0.tables.get_mut(id).name = Some(format!("named{}", id.index()));
+    }
+    fn get_mut_resolves(&mut self, id: TableId) -> Option<bool> {
+        Some(quiet(|| {
+            let _ = self.0.tables.get_mut(id);
+        })
+        .is_some())
+    }
     const NAME: &'static str = "tables";
     type Id = TableId;
     type Val = (bool, u64);
@@ -743,6 +814,15 @@ impl Coll for Tables {
 
 struct Datas(Module);
 impl Coll for Datas {
+    fn touch(&mut self, id: DataId) {
+        self.0.data.get_mut(id).name = Some(format!("named{}", id.index()));
+    }
+    fn get_mut_resolves(&mut self, id: DataId) -> Option<bool> {
+        Some(quiet(|| {
+            let _ = self.0.data.get_mut(id);
+        })
+        .is_some())
+    }
     const NAME: &'static str = "data";
     type Id = DataId;
     type Val = Vec<u8>;
@@ -772,6 +852,15 @@ impl Coll for Datas {
 
 struct Elems(Module);
 impl Coll for Elems {
+    fn touch(&mut self, id: ElementId) {
+        self.0.elements.get_mut(id).name = Some(format!("named{}", id.index()));
+    }
+    fn get_mut_resolves(&mut self, id: ElementId) -> Option<bool> {
+        Some(quiet(|| {
+            let _ = self.0.elements.get_mut(id);
+        })
+        .is_some())
+    }
     const NAME: &'static str = "elements";
     type Id = ElementId;
     type Val = u8;
@@ -826,6 +915,16 @@ struct Funcs {
     imp: ImportId,
 }
 impl Coll for Funcs {
+    fn touch(&mut self, id: FunctionId) {
+        // the name is part of the modelled value here: mutable access only
+        let _ = self.m.funcs.get_mut(id).id();
+    }
+    fn get_mut_resolves(&mut self, id: FunctionId) -> Option<bool> {
+        Some(quiet(|| {
+            let _ = self.m.funcs.get_mut(id);
+        })
+        .is_some())
+    }
     const NAME: &'static str = "functions";
     type Id = FunctionId;
     /// (is local, type slot, name)
@@ -998,6 +1097,10 @@ impl Coll for Customs {
         }
         matches!(quiet(|| self.m.customs.delete(u)), Some(Some(_)))
     }
+    fn get_mut_resolves(&mut self, id: usize) -> Option<bool> {
+        let u = self.ids[id];
+        Some(quiet(|| self.m.customs.get_mut(u).is_some()).unwrap_or(false))
+    }
     fn touch(&mut self, id: usize) {
         // mutable access by untyped and typed id; the content is rewritten unchanged
         let u = self.ids[id];
@@ -1163,7 +1266,7 @@ fn decode_choices(bytes: &[u8]) -> (String, Vec<Op>) {
             break;
         }
         match ch.below(10) {
-            0..=4 => ops.push(Op::Add(ch.below(6) as u8)),
+            0..=4 => ops.push(Op::Add(ch.below(8) as u8)),
             5..=7 => ops.push(Op::Del(ch.below(24) as u8)),
             8 => {
                 if ch.bool() {
@@ -1172,7 +1275,7 @@ fn decode_choices(bytes: &[u8]) -> (String, Vec<Op>) {
                     ops.push(Op::Aux(ch.below(6) as u8))
                 }
             }
-            _ => ops.push(Op::Remove(ch.below(6) as u8)),
+            _ => ops.push(Op::Remove(ch.below(8) as u8)),
         }
     }
     (coll, ops)
@@ -1238,7 +1341,14 @@ fn run(ctx: &Ctx) {
                 alphabet.push(Op::Aux(1));
                 len -= 1;
             }
-            "exports" | "imports" => {
+            "exports" => {
+                // "e" is a second name of the function "a" exports
+                alphabet.push(Op::Add(6));
+                alphabet.push(Op::Remove(0));
+                alphabet.push(Op::Remove(6));
+                len -= 1;
+            }
+            "imports" => {
                 alphabet.push(Op::Remove(0));
                 alphabet.push(Op::Remove(1));
                 len -= 1;
